@@ -26,7 +26,8 @@ def _iter_body(read, buff_size, *, content_length):
         if not part:
             break
         yield part
-        rest_len -= part_size
+        # the stream may return less than requested (short read)
+        rest_len -= len(part)
 
 
 def _iter_chunked(read, buff_size):
